@@ -49,7 +49,7 @@ QUICK_SC = ["ssl3-rsa", "tls10-dhe_rsa", "tls11-ecdhe_rsa-clientauth",
             "tls13-resume-ticket", "default-default", "tls12-ecdhe_rsa-alpn",
             "tls13-alpn-tickets", "tls12-ecdhe_rsa-npn"]
 FAIL_SC = ["fail-nosuite", "fail-version", "fail-tamper", "fail-sni",
-           "fail-sni13"]
+           "fail-sni13", "fail-keysize"]
 
 # payloads that fill records of every size class: a few bytes, more than
 # the read-ahead of BufferedSocket (4096), more than one full record
@@ -245,6 +245,13 @@ def special_flavor(name):
                       cset=settings(minVersion=v, maxVersion=v),
                       sset=settings(minVersion=v, maxVersion=v),
                       server_kw=dict(sni="served.example"))
+    if name == "fail-keysize":
+        # refused by the client in the middle of its key-exchange flight,
+        # while its writes are being collected
+        return Flavor("cert", skey="rsa",
+                      cset=settings(minVersion=(3, 3), maxVersion=(3, 3),
+                                    minKeySize=4096),
+                      sset=settings(minVersion=(3, 3), maxVersion=(3, 3)))
     if name == "fail-version":
         return Flavor("cert", skey="rsa",
                       cset=settings(minVersion=(3, 3), maxVersion=(3, 3)),
